@@ -239,6 +239,10 @@ type vmResult struct {
 	same    bool
 }
 
+// apiShape: how the scripts reach the engine - a function of the case, so that replays take the same path.
+// 0: WithScripts and the unlocking script also recorded on the transaction's input; 1: WithScripts only.
+func apiShape(c vmCase) int { return (len(c.Unlock) + 3*len(c.Lock) + int(c.Flags%5)) % 2 }
+
 // runVM executes one case. dbg: "none" | "rec" | "scribble".
 func runVM(c vmCase, dbg string) (res vmResult) {
 	unlock, lock := toBytes(c.Unlock), toBytes(c.Lock)
@@ -251,6 +255,9 @@ func runVM(c vmCase, dbg string) (res vmResult) {
 		if c.CarrySats != nil {
 			tx.Inputs[c.TxIdx].PreviousTxSatoshis = *c.CarrySats
 			tx.Inputs[c.TxIdx].PreviousTxScript = bscript.NewFromBytes(toBytes(c.CarryScript))
+		}
+		if apiShape(c) == 1 {
+			tx.Inputs[c.TxIdx].UnlockingScript = nil // scripts handed over through WithScripts only
 		}
 		txBefore = tx.Bytes()
 		opts = append(opts, interpreter.WithTx(tx, c.TxIdx, &bt.Output{Satoshis: c.Amount, LockingScript: ls}))
@@ -265,6 +272,9 @@ func runVM(c vmCase, dbg string) (res vmResult) {
 			tx.Inputs = append(tx.Inputs, extra)
 		}
 		tx.Outputs = []*bt.Output{{Satoshis: 0, LockingScript: bscript.NewFromBytes([]byte{})}}
+		if apiShape(c) == 1 {
+			in.UnlockingScript = nil // a transaction that is not unlocked yet; scripts through WithScripts only
+		}
 		txBefore = tx.Bytes()
 		idx := 0
 		if c.Idx != nil {
